@@ -370,7 +370,8 @@ class Runner:
         self.par = 8
         self.todo = list(indices if indices is not None else range(ctx.scale(24, 400)))
         self.running, self.stats = [], {"projects": 0}
-        self.t_limit = ctx.scale(110, 600)
+        # when the Lean steps already used up most of the time (overloaded machine) wait less for the first wave
+        self.t_limit = ctx.scale(110 if ctx.time_left() > 100 else 70, 600)
         # the first wave always runs (also when the machine is so loaded that the Lean steps used up the time):
         # a check without a single real build would say nothing about the truthful clause
         self.first = set(self.todo[:ctx.scale(6, 8)])
